@@ -419,6 +419,30 @@ pub fn run(ctx: &Ctx, col: &Collector) -> Meta {
                     inputs.push(Input { kind: k.clone(), bytes: b.clone(), class: "valid".into(), changes_count: false });
                     enumerate(&k, &b, ctx.thorough, &mut inputs);
                 }
+                // crafted: structures with many one-attribute dimensions (the number of rights is
+                // exponential in the number of dimensions; reading must not enumerate them),
+                // alone and inside a public key and a master key; parsed and inspected only
+                for (k, b) in child.seeds.clone() {
+                    for n in [10usize, 14, 18, 22, 26] {
+                        let dims: Vec<wire::WDim> = (0..n).map(|i| wire::WDim { name: format!("d{i}"), ordered: (i % 2) as u64, attrs: vec![wire::WAttr { name: "a".into(), id: i as u64, hint: (i % 3 == 0) as u64, status: 1 }] }).collect();
+                        let st = wire::WStructure { version: 1, next_id: Some(n as u64), dims };
+                        let bytes = match k.as_str() {
+                            "structure" => Some(st.encode()),
+                            "mpk" => wire::WMpk::decode(&b).ok().map(|mut w| {
+                                w.structure = st.clone();
+                                w.encode()
+                            }),
+                            "msk" => wire::WMsk::decode(&b).ok().map(|mut w| {
+                                w.structure = st.clone();
+                                w.encode()
+                            }),
+                            _ => None,
+                        };
+                        if let Some(bytes) = bytes {
+                            inputs.push(Input { kind: format!("{k}-parse"), bytes, class: "crafted:many-dimensions".into(), changes_count: true });
+                        }
+                    }
+                }
                 // every worker has its own seeds (same shapes, different random bytes and hash
                 // orders), so the enumerations are not index-aligned across workers: an input is
                 // owned by the worker given by a stable hash of (kind, class, k-th of that group)
@@ -471,7 +495,7 @@ pub fn run(ctx: &Ctx, col: &Collector) -> Meta {
     for c in [
         "mut:truncation", "mut:byte-xor01", "mut:byte-setff", "mut:field=0", "mut:field=small", "mut:field=medium", "mut:field=huge", "mut:field=overlong-leb",
         "mut:zero:no-traps", "mut:zero:no-components", "mut:zero:no-markers", "mut:zero:no-rights", "mut:zero:empty-chains", "mut:zero:no-tracers", "mut:zero:no-dimensions",
-        "mut:metadata-truncated", "mut:many-components", "mut:random-bytes", "mut:splice", "mut:smash", "mut:insert", "mut:remove",
+        "mut:metadata-truncated", "mut:many-components", "mut:crafted", "mut:random-bytes", "mut:splice", "mut:smash", "mut:insert", "mut:remove",
     ] {
         if col.class_count(c) == 0 && !col.stopped() {
             col.note(format!("generator unhealthy: mutation class {c} never produced"));
@@ -484,7 +508,7 @@ pub fn run(ctx: &Ctx, col: &Collector) -> Meta {
     }
     Meta {
         level: "fault_enumeration",
-        rule: format!("for valid serializations of encapsulations (classic, hybridized, multi-target), an encrypted header, user keys (two revisions, hybridized), a public key, a master key and an access structure, produced inside an isolated worker process: every truncation (strided beyond 300 bytes for large objects in the quick tier), single-byte corruptions (xor 01 / xor 80 / 00 / ff at every offset of small objects, strided for large ones), every count / length / flag field located by the independent codec replaced by each of {BOUNDARY:?} and value+-1, over-long LEB128, zero-element variants (no traps, no markers, no rights, empty chains, no tracers, empty structure), generated splices / smashes / insertions / removals and random strings; every mutant that parses is used (decaps with honest keys, recaps, header decrypt, refresh, encaps under a parsed public key, key generation / update / rekey with a parsed master key, accessors). Oracle: a value or an error — no panic, abort, signal — with CPU <= 150ms + 60us/byte + 3ms per decapsulation trial, peak allocation <= 2MiB + 96 B/byte, largest single allocation <= 512KiB + 24 B/byte. Non-trivial = mutant of a count / length field, or mutant that parses; distinct by (type, mutation class, parsed?)"),
+        rule: format!("for valid serializations of encapsulations (classic, hybridized, multi-target), an encrypted header, user keys (two revisions, hybridized), a public key, a master key and an access structure, produced inside an isolated worker process: every truncation (strided beyond 300 bytes for large objects in the quick tier), single-byte corruptions (xor 01 / xor 80 / 00 / ff at every offset of small objects, strided for large ones), every count / length / flag field located by the independent codec replaced by each of {BOUNDARY:?} and value+-1, over-long LEB128, zero-element variants (no traps, no markers, no rights, empty chains, no tracers, empty structure), generated splices / smashes / insertions / removals and random strings, crafted structures of 10-26 one-attribute dimensions (alone, inside a public key, inside a master key; parsed and inspected only); every mutant that parses is used (decaps with honest keys, recaps, header decrypt, refresh, encaps under a parsed public key, key generation / update / rekey with a parsed master key, accessors). Oracle: a value or an error — no panic, abort, signal — with CPU <= 150ms + 60us/byte + 3ms per decapsulation trial, peak allocation <= 2MiB + 96 B/byte, largest single allocation <= 512KiB + 24 B/byte. Non-trivial = mutant of a count / length field, or mutant that parses; distinct by (type, mutation class, parsed?)"),
         exhaustive: false,
         assumptions: vec![
             "'proportional' is an envelope with calibrated constants (ratio of use recorded in notes); a regression inside the envelope is not detected".into(),
